@@ -9,6 +9,8 @@ pub(crate) static mut READS_LEFT: u8 = 0;
 pub(crate) static mut READS_DONE: u8 = 0;
 /// When reads are exhausted: true = end of input (None => `quit`), false = cut the path (assume(false)).
 pub(crate) static mut EOF_WHEN_EXHAUSTED: bool = false;
+/// Set by harnesses whose reference model says "no pause here": asking for a command is then a violation.
+pub(crate) static mut READ_FORBIDDEN: bool = false;
 
 pub(crate) const C_HELP: u32 = 1 << 0;
 pub(crate) const C_STEPOVER: u32 = 1 << 1;
@@ -126,6 +128,8 @@ impl<'a> Command<'a> {
         F: Fn(error::Command),
     {
         unsafe {
+            assert!(!READ_FORBIDDEN, "debugger paused (asked for a command) without a breakpoint, HALT, bounds or step reason");
+            kani::cover!(true, "a command is read");
             if READS_LEFT == 0 {
                 if EOF_WHEN_EXHAUSTED {
                     READS_DONE += 1;
@@ -135,7 +139,10 @@ impl<'a> Command<'a> {
             }
             READS_LEFT -= 1;
             READS_DONE += 1;
-            let r = any_rec(ALLOWED);
+            let mut r = any_rec(ALLOWED);
+            if ALLOWED == C_QUIT {
+                r.sel = 13;
+            }
             LAST = Some(r);
             Some(command_of(&r))
         }
@@ -144,6 +151,11 @@ impl<'a> Command<'a> {
 
 pub(crate) fn reads_done() -> u8 {
     unsafe { READS_DONE }
+}
+pub(crate) fn forbid_reads(f: bool) {
+    unsafe {
+        READ_FORBIDDEN = f;
+    }
 }
 pub(crate) fn allow(mask: u32, reads: u8, eof_after: bool) {
     unsafe {
@@ -156,4 +168,9 @@ pub(crate) fn allow(mask: u32, reads: u8, eof_after: bool) {
 
 pub(crate) fn last() -> Option<Rec> {
     unsafe { LAST }
+}
+
+/// re-export for harnesses outside `command` (the `reader` module is private to it)
+pub(crate) fn dummy_reader() -> CommandReader {
+    super::reader::verif_h::dummy_reader()
 }
